@@ -137,10 +137,24 @@ type fRoundResult struct {
 // fConcRound: one world, one request multiset, sequential reference, then
 // concurrent runs (cold, then warm) for a few goroutine counts.
 func fConcRound(r *rng, round int) (res fRoundResult) {
-	world := fGenWorld(r, 30, round%3)
+	var world *fWorld
+	var pool []*fQuery
+	kind := ""
+	if round%4 == 1 {
+		// buckets with several entries, hostnames made of several indexed labels, rule lines longer than the read
+		// buffers (group R4, race_r4_c14.go)
+		world, pool, kind = r4GenDenseWorld(r)
+		kind += "; "
+	} else {
+		world = fGenWorld(r, 30, round%3)
+		pool = fGenQueryPool(r, world, 8+r.n(16))
+	}
 	defer world.cleanup()
-	pool := fGenQueryPool(r, world, 8+r.n(16))
 	m := 24 + r.n(72)
+	if kind != "" {
+		// the pool of a dense world is asked about in short bursts (more cold starts for the time)
+		m = 24 + r.n(36)
+	}
 	qs := make([]*fQuery, m)
 	for i := range qs {
 		qs[i] = pick(r, pool)
@@ -164,7 +178,7 @@ func fConcRound(r *rng, round int) (res fRoundResult) {
 		haveWant = true
 	}
 	gs := []int{2, 3 + r.n(6), 9 + r.n(24)}
-	res.desc = fmt.Sprintf("round %d: %d queries over %v goroutines; %s", round, m, gs, world.describe())
+	res.desc = fmt.Sprintf("round %d: %d queries over %v goroutines; %s%s", round, m, gs, kind, world.describe())
 	for _, g := range gs {
 		cs := world.storage(nil, false)
 		cg := fBuild(cs)
@@ -237,6 +251,8 @@ func fRaceMain(seed uint64, rounds int) int {
 	var mism []string
 	for i := 0; i < rounds; i++ {
 		res := fConcRound(r, i)
+		// a race report of this round stands ABOVE this line in stderr (bin/vconfig_groupf.py names the round with it)
+		fmt.Fprintf(os.Stderr, "c14race: end of %s\n", trunc(strings.ReplaceAll(res.desc, "\n", "\\n"), 1800))
 		evals += res.evals
 		dup += res.dupOnly
 		nontrivial += res.nontrivial
